@@ -293,6 +293,12 @@ func hasTerm(v value) bool {
 // ---------------------------------------------------------------- binop
 
 func binop(m *machine, op token.Token, t types.Type, x, y value) value {
+	if _, ok := x.(*SymFloat); ok {
+		return m.symFloatBinop(op, x, y)
+	}
+	if _, ok := y.(*SymFloat); ok {
+		return m.symFloatBinop(op, x, y)
+	}
 	if op == token.EQL || op == token.NEQ {
 		r := eqnil(m, t, x, y)
 		if op == token.NEQ {
@@ -773,6 +779,8 @@ func unop(fr *frame, instr *ssa.UnOp, x value) value {
 		return m.notVal(x)
 	case token.SUB:
 		switch xv := x.(type) {
+		case *SymFloat:
+			return &SymFloat{num: m.ts.Neg(xv.num), den: xv.den}
 		case *Term:
 			k, _ := intInfo(instr.X.Type())
 			return m.wrap(m.ts.Neg(xv), k)
